@@ -13,7 +13,7 @@
 //!       (predicate 1..9, predicate data 0..9, message data 1..9 bytes, per slot),
 //!       same-owner flag, script x script-data lengths from L = 0..9, witness lists of
 //!       length <= 2 with lengths from L; plus all (single input kind x output list)
-//!       pairs (thorough: all input lists x output lists), each in SCRIPT context
+//!       pairs (thorough: all input lists of length <= 2 and the rotations x output lists), each in SCRIPT context
 //!       (`init_script`) and once per predicate input in PREDICATE context
 //!       (`init_predicate`, instruction executed in predicate mode);
 //!     * three call programs paused INSIDE contract A (called by the script) and inside
@@ -24,7 +24,7 @@
 //!   CASES per unit: EVERY GTF immediate 0..4095 x index register in
 //!     {0..=maxlen+1, 65535, 65536, 2^32, u64::MAX} (maxlen = longest list of the tx);
 //!     EVERY GM immediate 0..2^18-1 for the first unit of every (tx kind, context) class
-//!     (thorough: every 4th unit), a boundary set of ~140 immediates for the others.
+//!     (thorough: every 16th unit), a boundary set of ~140 immediates for the others.
 //!   One injected instruction per case on a clone of the prepared VM.
 //! Bound: the transaction alphabets above (listed in the evidence); one instruction.
 //!
@@ -1534,11 +1534,16 @@ fn build_other(kind: usize, variant: usize) -> Transaction {
             Transaction::create(variant as u16, p, Salt::new(pat32(0xE7)), slots, i, o, w).into()
         }
         1 => {
-            let (p, i, o, w) = other_parts(variant, None);
+            let (p, i, o, mut w) = other_parts(variant, None);
             let purpose = if variant % 2 == 0 {
+                // metadata precomputation decodes the witness and compares the checksum
+                let wi = variant / 2;
+                let payload = postcard::to_allocvec(&params()).expect("serialize consensus parameters");
+                let checksum = Bytes32::new(vcore::oracle::sha256(&[&payload[..]]));
+                w[wi] = Witness::from(payload);
                 UpgradePurpose::ConsensusParameters {
-                    witness_index: 0x0100 + variant as u16,
-                    checksum: Bytes32::new(pat32(0xE9)),
+                    witness_index: wi as u16,
+                    checksum,
                 }
             } else {
                 UpgradePurpose::StateTransition { root: Bytes32::new(pat32(0xEA)) }
@@ -1889,7 +1894,7 @@ fn run_op(u: &Unit, op: &Op) -> Verdict {
                 let name = gtf_name(*imm).unwrap_or("undefined_imm");
                 (
                     format!("C05:GTF:{name}:{aspect}"),
-                    format!("GTF imm={imm:#05x} ({name}) index={b}: {what} [{} / ctx {}]", u.spec.describe(), u.ctx.name()),
+                    format!("GTF imm={imm:#05x} ({name}) index={b}: {what} [{}]", u.spec.describe()),
                 )
             });
             Verdict { step, dest, exp: Some(exp), bad }
@@ -1901,7 +1906,7 @@ fn run_op(u: &Unit, op: &Op) -> Verdict {
                 let name = gm_name(*imm).unwrap_or("undefined_imm");
                 (
                     format!("C05:GM:{name}:{aspect}"),
-                    format!("GM imm={imm:#07x} ({name}): {what} [{} / ctx {}]", u.spec.describe(), u.ctx.name()),
+                    format!("GM imm={imm:#07x} ({name}): {what} [{}]", u.spec.describe()),
                 )
             });
             Verdict { step, dest, exp: Some(exp), bad }
@@ -2194,7 +2199,7 @@ fn script_corpus(thorough: bool) -> (Vec<ScriptSpec>, Value) {
     // (input list x output list) pairs at the rich base point's other coordinates
     let rich = base_specs()[1].clone();
     for i in &ils {
-        if thorough || i.len() == 1 {
+        if (thorough && i.len() != 3) || i.len() == 1 {
             for o in &ols {
                 push(ScriptSpec { inputs: i.clone(), outputs: o.clone(), ..rich.clone() }, &mut out);
                 push(ScriptSpec { inputs: i.clone(), outputs: o.clone(), same_owner: true, pol: 0, ..rich.clone() }, &mut out);
@@ -2209,7 +2214,7 @@ fn script_corpus(thorough: bool) -> (Vec<ScriptSpec>, Value) {
         "length_classes": nv, "same_owner": 2,
         "script_x_data_lengths": if thorough { "L x L (100)" } else { "star of L x L (19 per base point)" },
         "witness_lists": wls.len(),
-        "pairs": if thorough { "all input lists x output lists" } else { "single input kind x output lists" },
+        "pairs": if thorough { "all input lists of length <= 2 and the 7 all-kinds rotations x output lists" } else { "single input kind x output lists" },
         "base_points": base_specs().iter().map(|b| b.describe()).collect::<Vec<_>>(),
         "call_programs": internal_specs().len(),
     });
@@ -2263,7 +2268,7 @@ fn explore(ctx: &Ctx) {
             "OutputCoinTo/Amount/AssetId on Change and Variable outputs: correct answer or OutputNotFound",
             "OutputContractInputIndex on a non-contract / absent output: OutputNotFound or InputNotFound",
             "InputContractOutputIndex with index >= 2^16: InvalidMetadataIdentifier or InputNotFound",
-            "index register > u32::MAX: InvalidMetadataIdentifier is accepted for every selector (32-bit hosts)",
+            "index register > u32::MAX: InvalidMetadataIdentifier is accepted for every selector (the VM converts indices the way a 32-bit host would), as is the ordinary answer",
             "pointer value for zero-length vectors (only required to lie inside the transaction image)",
             "GM with an undefined immediate: any VM panic",
             "which pointer GM BaseAssetId / GetOwner / GetCaller return, as long as the 32 bytes there are the expected id",
@@ -2309,7 +2314,7 @@ fn explore(ctx: &Ctx) {
     ctx.set("non_script_transactions", json!(other_info));
     ctx.set("non_script_transaction_count", json!(other_txs));
 
-    // GM full sweeps: first unit of every (kind, context class); thorough: also every 4th unit
+    // GM full sweeps: first unit of every (kind, context class); thorough: also every 16th unit
     let class_of = |u: &UnitSpec| -> String {
         match u {
             UnitSpec::Script { ctx, .. } => format!("Script:{}", match ctx { SCtx::Script => "s", SCtx::Pred(_) => "p", SCtx::InternalA => "a", SCtx::InternalB => "b" }),
@@ -2320,7 +2325,7 @@ fn explore(ctx: &Ctx) {
     let gm_full: Vec<bool> = units
         .iter()
         .enumerate()
-        .map(|(i, u)| seen_class.insert(class_of(u)) || (thorough && i % 4 == 0))
+        .map(|(i, u)| seen_class.insert(class_of(u)) || (thorough && i % 16 == 0))
         .collect();
     ctx.set("units_total", json!(units.len()));
 
